@@ -7,7 +7,7 @@ From Coq Require Import String.
 From Coq Require Import ZArith List Bool Arith Sorting.Sorted Sorting.Permutation.
 From QV.Core Require Import OF Sums Mat C17_Z8.
 From QV.Model Require Import C17_Tables C17_Permute C17_Names C17_Ham3q.
-From QV.Proofs Require Import C17_Tables C17_Bases9 C17_Eval C17_Permute C17_Names C17_Ham3q.
+From QV.Proofs Require Import C17_Tables C17_Bases9 C17_Eval C17_Permute C17_Names C17_Ham3q C17_ProjExp.
 Import ListNotations.
 
 (* every textbook action triple (gate, input state, output state) holds in the table algebra, as equality of density operators:
@@ -130,6 +130,25 @@ Print Assumptions C17_formal_hamiltonian_denotes_table.
 Theorem C17_toffoli_fredkin_hamiltonians_partial : forall k ids, (k < 2)%nat -> In ids perms3 -> ham3q_ok k ids.
 Proof. exact toffoli_fredkin_hamiltonians_are_projectors. Qed.
 Print Assumptions C17_toffoli_fredkin_hamiltonians_partial.
+
+(* Taylor partial sums of exp(c Q) for Q Q = a Q (a = 1: a projector), ANY commutative ring, dimension, c and N, division-free
+   (T_N = N! * sum_{n<=N} (cQ)^n / n!, t_N = N! * sum_{n<=N} (ac)^n / n!, f_N = N!):   T_N = f_N I + u_N Q   and   a u_N = t_N - f_N.
+   For toffoli / fredkin (Q = M = 8H/pi, a = -8, c = -i pi/8, ac = i pi) the partial sums of exp(-iH) are therefore I + ((s_N(i pi) - 1)/(-8)) M, whose limit
+   I + M/4 is the table gate by C17_toffoli_fredkin_hamiltonians_partial.  What remains unproved of "exp(-iH) = U": convergence of the scalar series
+   s_N(i pi), Euler's identity e^{i pi} = -1, and writing out the matrix version of the transfer of M M = -8 M from Z[i, sqrt 2] to C (C17_eval_morphism). *)
+Theorem C17_quasi_projector_exp_partial_sums : forall (R : CR) (d : nat) (Q : @mat R) (a c : R),
+  meq d d (mmul d Q Q) (mscale a Q) ->
+  forall n, meq d d (Tsum d Q c n) (madd (mscale (fact_r n) mid) (mscale (usum a c n) Q)) /\ cmul R a (usum a c n) = csub R (tsum a c n) (fact_r n).
+Proof. intros R d Q a c H n. split; [now apply quasi_projector_exp_partial_sums|apply usum_scalar_series]. Qed.
+Print Assumptions C17_quasi_projector_exp_partial_sums.
+
+(* the instance: the toffoli / fredkin Pauli sums M (all six id orders) over Z[i, sqrt 2], any scalar c of that ring, any N *)
+Theorem C17_toffoli_fredkin_exp_partial_sums : forall k ids, (k < 2)%nat -> In ids perms3 -> forall (c : Z8R) n,
+  @meq Z8R 8 8 (Tsum (R := Z8R) 8 (ham3q k ids) c n)
+               (madd (mscale (fact_r (R := Z8R) n) mid) (mscale (usum (R := Z8R) (z8z (-8)) c n) (ham3q k ids))).
+Proof. intros k ids Hk Hin c n. apply (quasi_projector_exp_partial_sums (R := Z8R)). intros i j Hi Hj.
+  exact (proj1 (toffoli_fredkin_hamiltonians_are_projectors k ids Hk Hin) i j Hi Hj). Qed.
+Print Assumptions C17_toffoli_fredkin_exp_partial_sums.
 
 (* non-vacuity: the Hadamard table maps the table z0 to the table x0; the T gate (entries outside Q[i]) is unitary;
    the 2-qutrit normalised generalized Gell-Mann basis is one of the instances *)
